@@ -9,7 +9,7 @@ import torch
 from . import wq
 
 EVIDENCE = dict(
-    bounds="route agreement (ALG with exact-integer contractions): rows in {1,8,17,24}, in/out features in {3,4,8,12} (both sides of every size threshold in library/qbytes_mm.py and qbytes_ops.mm), batch ranks 1-3, activations float/int8/float8 codes, weights int8/float8 codes, per-axis and per-tensor output scales, routes: default, integer GEMM, CPU selector, CUDA and MPS selector functions run on CPU tensors, the routed op; accuracy (RERR): integer routes for any K < 1024 (exact contraction cut to one variable), float routes K in {1,2}; finiteness (BIT): float16/bfloat16, K in {1,2}; linear level: F.linear / matmul / bmm with weights in all six qtypes, bias on/off, input ranks 2-3, repeated calls, in-place overwrite of the quantized weight between calls; torch.mm/matmul/bmm on quantized pairs incl. per-axis operands (scales along either axis of either operand) and the (24,8)x(8,8), (24,24)x(24,8) integer-GEMM shapes; a non-contiguous (transposed) rank-3 batch through every integer route",
+    bounds="route agreement (ALG with exact-integer contractions): rows in {1,8,17,24}, in/out features in {3,4,8,12} (both sides of every size threshold in library/qbytes_mm.py and qbytes_ops.mm; plus, for every further integer literal L in 24..2048 that the current source of library/qbytes_mm.py, tensor/qbytes_ops.py, tensor/qtensor_func.py, nn/qlinear.py, library/ops.py uses as a possible size threshold, the shapes (L+1,8,8), (2L+1,4,3) and for L <= 128 (3,L,8), (17,8,L), (3,L+1,3) - none on the pinned tree), batch ranks 1-3, activations float/int8/float8 codes, weights int8/float8 codes, per-axis and per-tensor output scales, routes: default, integer GEMM, CPU selector, CUDA and MPS selector functions run on CPU tensors, the routed op; accuracy (RERR): integer routes for any K < 1024 (exact contraction cut to one variable), float routes K in {1,2}; finiteness (BIT): float16/bfloat16, K in {1,2}; linear level: F.linear / matmul / bmm with weights in all six qtypes, bias on/off, input ranks 2-3, repeated calls, in-place overwrite of the quantized weight between calls; torch.mm/matmul/bmm on quantized pairs incl. per-axis operands (scales along either axis of either operand) and the (24,8)x(8,8), (24,24)x(24,8) integer-GEMM shapes; a non-contiguous (transposed) rank-3 batch through every integer route",
     outside="the CUDA _int_mm / AWQ gemm and MPS kernels themselves; torch._weight_int8pack_mm numerics (bfloat16 x int8 on CPU: see known finding, the kernel crashes in this torch build and is not executed in-process); float accumulation for K > 2 (the per-term error model is uniform in K but that is not a solver result)",
     assumptions=[
         "a float32 contraction of exact 8-bit integer casts is exact below 2^24 in any summation order (rewritten to the integer contraction; validated against the real kernel's value on every executed op)",
@@ -17,6 +17,9 @@ EVIDENCE = dict(
     ],
 )
 CASE_DEADLINE = dict(quick=600.0, thorough=1500.0)
+
+THRESHOLD_FILES = ["optimum/quanto/library/qbytes_mm.py", "optimum/quanto/tensor/qbytes_ops.py", "optimum/quanto/tensor/qtensor_func.py", "optimum/quanto/nn/qlinear.py", "optimum/quanto/library/ops.py"]
+PINNED_THRESHOLDS = {32: 2}
 
 
 def cases(tier, seed):
@@ -52,6 +55,16 @@ def cases(tier, seed):
             for w in ("qint8", "qfloat8_e4m3fn"):
                 out.append(dict(kind="mm-dispatch", dtype=dt, act=a, w=w))
     out.append(dict(kind="int8pack-crash"))
+    # shapes derived from integer size thresholds of the current source that the fixed catalogue above does not straddle
+    # (on the pinned tree the only literals >= 24 are the two `% 32` tests of the MPS selector, which lead to the crashing
+    # torch._weight_int8pack_mm and are never run in-process)
+    for L, where in sorted(wq.size_thresholds(THRESHOLD_FILES, hi=2048).items()):
+        if len(where) <= PINNED_THRESHOLDS.get(L, 0):
+            continue
+        extra = [(L + 1, 8, 8), (2 * L + 1, 4, 3)] + ([(3, L, 8), (17, 8, L), (3, L + 1, 3)] if L <= 128 else [])
+        for a in ("float", "qint8"):
+            for w in ("qint8", "qfloat8_e4m3fn"):
+                out.append(dict(kind="routes", dtype="float32", act=a, w=w, shapes=[list(s) for s in extra], threshold=f"{L} at {where[-1]}"))
     return out
 
 
